@@ -126,6 +126,17 @@ CORPUS = {
     "escaped-quote-then-hash-inside-literal": S("banner = \"screen 7\\\" #2 ready\"\nmon.write(banner)\nnote = 'it\\'s unit #2'\nmon.write(note)\nmon.write(len(banner))\n"),
     "chained-comparison-evaluates-the-middle-once": S("def mid(v):\n    mon.write(v)\n    return v + 1\nk = 3\nwhile True:\n    if 1 < mid(k) < 9:\n        mon.write(100)\n    x = 0 < mid(k) + 1 <= 5 < k\n    mon.write(x)\n"
                                                       "    y = 1 < (1 < (2 < mid(k) < 9) < 3) < 3\n    mon.write(y)\n    k = k + 3\n    sleep(5)\n"),
+    "hash-after-the-other-quote-in-a-literal": S("n = 2\nmon.write(\"it's channel #1\")\nmon.write(f\"pass {n}: it's over #250\")\nmon.write('say \"hi\" # x')\nmon.write('a \"q # r')  # real comment\nmon.write(n)\n"),
+    "non-ascii-text": S("w = 3\nmon.write('Température: µs ±1°')\nmon.write(f'{w} unités é')\nlabel = 'größe'\nmon.write(label + '€')\nmon.write(len(label))\n"),
+    "integer-literal-numerator-division": S("n = 4\ncount = 8\ninv = 1 / n\npct = 100 / count\nq = 1 / 4\nmon.write(inv)\nmon.write(pct)\nmon.write(q)\ndef frac(k):\n    return 1 / k\nmon.write(frac(8))\nmon.write(3 / n + 1)\n"),
+    "parameter-named-like-a-differently-typed-global": S("gain = 3\ndef amplify(gain):\n    return gain * 2\nmon.write(amplify(1.5))\nmon.write(gain)\ndef area(n):\n    return n * n\ndef ring(n):\n    return area(n / 2)\nmon.write(ring(3))\n"),
+    "nested-lists": S("grid = [[1, 2], [3, 4]]\nmon.write(grid[1][0])\nmon.write(len(grid[0]))\nrows = [[i, i + 1] for i in range(3)]\nmon.write(rows[2][1])\ndef corner(g):\n    return g[0][1]\nmon.write(corner(grid))\n"),
+    "fstring-starting-with-a-string-valued-placeholder": S("c = 1\nmon.write(f\"{'ON' if c > 0 else 'OFF'} now\")\nmon.write(f\"{'a'}{'b'} tail\")\ndef state(k):\n    return f\"{'hi' if k else 'lo'}!\"\nmon.write(state(0))\n"),
+    "else-block-starting-with-an-if": S("a = 1\nb = 2\nwhile True:\n    if a > 5:\n        mon.write('big')\n    else:\n        if b > 1:\n            mon.write('b')\n        else:\n            mon.write('nb')\n"
+                                        "        mon.write('after')\n        a = a + 3\n        for i in range(2):\n            mon.write(i)\n    mon.write(a)\n    sleep(5)\n"),
+    "condition-calling-a-helper-with-two-signatures": S("def scale(v):\n    return v * 2\ng = 2.5\nk = 0\nwhile True:\n    if scale(3) < scale(g):\n        mon.write(1)\n    elif scale(k) > scale(g):\n        mon.write(2)\n    else:\n        mon.write(0)\n"
+                                                        "    while scale(k) < scale(g) - 1:\n        k = k + 1\n    mon.write(k)\n    g = g + 1.5\n    sleep(5)\n"),
+    "bare-except": S("x = 1\ntry:\n    x = 2\nexcept:\n    x = 3\nmon.write(x)\n"),
     "main-loop-header-with-trailing-comment": S("k = 0\nwhile True:  # main loop\n    k = k + 1\n    mon.write(k)\n    sleep(5)\n"),
     "sleep-in-branches": S("k = 0\nwhile True:\n    if k % 2 == 0:\n        sleep(100)\n    else:\n        sleep(250)\n    k = k + 1\n    mon.write(k)\n"),
 }
